@@ -159,7 +159,7 @@ class Monitor:
 
 def _cli_ops(ctx, ch, L, world, pool, c):
 	"""Draw one read-side command. Returns (kind, args)."""
-	kind = ch.pick(['query', 'dist_usedb', 'sig_info', 'dist', 'sig_create', 'tree', 'query_sig'], L + '.cmd')
+	kind = ch.pick(['query', 'dist_usedb', 'sig_info', 'dist', 'sig_create', 'tree', 'query_sig', 'sig_info_file', 'dist_rs_dbfile', 'tree_dbfile'], L + '.cmd')
 	npool = len(pool.genomes)
 	out = os.path.join(ctx.scratch, f'op-{c}.out')
 	def some(n_lo=1, n_hi=4):
@@ -179,6 +179,13 @@ def _cli_ops(ctx, ch, L, world, pool, c):
 		args = ['-d', world.dir, 'dist', '-o', out, '--no-progress', '--qs', pool.sigfile, '--square'] + cargs
 	elif kind == 'sig_info':
 		args = ['-d', world.dir, 'signatures', 'info', '-d'] + ch.pick([[], ['--json'], ['--ids'], ['--json', '--pretty']], L + '.info')
+	elif kind == 'sig_info_file':
+		# the database's signature file named directly, as an ordinary signature file
+		args = ['signatures', 'info', world.gs] + ch.pick([[], ['--json'], ['--ids']], L + '.info')
+	elif kind == 'dist_rs_dbfile':
+		args = ['dist', '-o', out, '--no-progress', '--qs', pool.sigfile, '--rs', world.gs] + cargs
+	elif kind == 'tree_dbfile':
+		args = ['tree', '--no-progress', '-s', world.gs] + cargs
 	elif kind == 'sig_create':
 		args = ['-d', world.dir, 'signatures', 'create', '-o', out + '.gs', '--db-params', '--no-progress'] + cargs + some(1, 3)
 	else:
